@@ -332,7 +332,7 @@ DoBPublish(s, m, h) ==
                              regid |-> 0, regname |-> "", last |-> [side |-> "sn", p |-> pub, m |-> Mq0],
                              retries |-> 0, due |-> s.now + s.cfg.retrydelay]}], pub)
     IN
-    IF m.plen + 9 > MaxDatagram THEN s          \* cannot be carried: dropped
+    IF m.plen + 9 > MaxDatagram \/ m.tlen + 8 > MaxDatagram THEN s    \* PUBLISH / REGISTER would not fit: dropped
     ELSE IF m.short THEN track(s, mk(2, m.sid))
     ELSE IF RegIds(s, m.topic) # {} THEN track(s, mk(0, Pick(RegIds(s, m.topic), h.tid)))
     ELSE IF PredefIds(s.cfg, s.cid, m.topic) # {} THEN
